@@ -21,6 +21,8 @@ func IsPDF(URL *models.URL) bool {
 
 func PDF(URL *models.URL) (outlinks []*models.URL, err error) {
 	defer URL.RewindBody()
+	// pdfcpu panics on some malformed streams (e.g. a negative or huge /Length)
+	defer recoverDecoderPanic("pdf", &err)
 
 	annots, err := pdfapi.Annotations(URL.GetBody(), nil, nil)
 	if err != nil {
